@@ -434,9 +434,11 @@ class Fitter:
         content: Fragment | None = None,
     ) -> None:
         top = self.frontier[self.depth]
-        top_match = top.match.match_type(type_)
-        assert top_match is not None
-        top.match = top_match
+        # Upstream writes `top.match.matchType(type)!`: a compile-time assertion
+        # only. When closing towards the end position re-opens a node that the
+        # frontier does not accept, the fit still produces a step (which is
+        # validated when it is applied), so this must not fail at run time.
+        top.match = cast(ContentMatch, top.match.match_type(type_))
         self.placed = add_to_fragment(
             self.placed,
             self.depth,
